@@ -35,6 +35,7 @@
 #include <fcppt/container/grid/spiral_iterator_impl.hpp>
 #include <fcppt/container/grid/spiral_range_impl.hpp>
 #include <fcppt/tuple/get.hpp>
+#include <fcppt/math/int_range.hpp>
 #include <fcppt/math/int_range_count.hpp>
 #include <fcppt/range/empty.hpp>
 #include <fcppt/range/from_pair.hpp>
@@ -917,6 +918,14 @@ std::string mirc_line()
   return "e=" + join_str(out);
 }
 
+template <std::size_t A, std::size_t B>
+std::string mir_line()
+{
+  std::vector<std::string> out;
+  fcppt::algorithm::loop(fcppt::math::int_range<A, B>{}, [&out]<typename I>(fcppt::tag<I>) { out.push_back(num(I::value)); });
+  return "e=" + join_str(out);
+}
+
 std::string handle_inner(std::vector<std::string> const &t)
 {
   if (t.empty())
@@ -992,6 +1001,18 @@ std::string handle_inner(std::vector<std::string> const &t)
   {
     if (t[1] == "v") return adr_line<ivec>(t);
     if (t[1] == "l") return adr_line<ilist>(t);
+    return "bad-op";
+  }
+  if (op == "mir" && t.size() == 3)
+  {
+    unsigned long long const a = vh::to_ull(t[1]), b = vh::to_ull(t[2]);
+    if (a == 0 && b == 0) return mir_line<0, 0>();
+    if (a == 0 && b == 3) return mir_line<0, 3>();
+    if (a == 1 && b == 2) return mir_line<1, 2>();
+    if (a == 2 && b == 5) return mir_line<2, 5>();
+    if (a == 3 && b == 3) return mir_line<3, 3>();
+    if (a == 5 && b == 16) return mir_line<5, 16>();
+    if (a == 15 && b == 16) return mir_line<15, 16>();
     return "bad-op";
   }
   if (op == "mirc" && t.size() == 2)
